@@ -356,6 +356,49 @@ Theorem C09_layout_overflow : forall fmt x name c m vs,
 Proof. exact xassign_refused. Qed.
 Print Assumptions C09_layout_overflow.
 
+(* ======================= round 7: assignment BY ATTRIBUTE in a world of objects of different formats =======================
+   obj.name = vs looks the name up in the layout of the object that is assigned to, and in nothing else (Model/SubFieldRec.v
+   `wattr`): where the name is no sub-field of that object no point of any object changes ... *)
+Theorem C09_attr_not_a_sub_field_changes_nothing : forall w a fields name vs,
+  (forall c m, resolve (obj_fmt w a) fields name <> TSub c m) -> wattr w a fields name vs = (w, None).
+Proof. exact wattr_not_sub_field. Qed.
+Print Assumptions C09_attr_not_a_sub_field_changes_nothing.
+
+(* ... where it is one, it is the whole-dimension assignment on that object (all of C09_world_* applies to it) ... *)
+Theorem C09_attr_sub_field_is_assignment : forall w a fields name vs c m,
+  find_sf (obj_fmt w a) (canon name) = Some (c, m) ->
+  wattr w a fields name vs = wstep w (WAssign a (OSeq (canon name) vs)).
+Proof. exact wattr_sub_field. Qed.
+Print Assumptions C09_attr_sub_field_is_assignment.
+
+(* ... and what was assigned under a name to an object where it is no sub-field takes no part in any later assignment *)
+Theorem C09_attr_history_independent : forall w a fa b fb name name' vs vs',
+  (forall c m, resolve (obj_fmt w a) fa name <> TSub c m) ->
+  wattr (fst (wattr w a fa name vs)) b fb name' vs' = wattr w b fb name' vs'.
+Proof. exact wattr_history. Qed.
+Print Assumptions C09_attr_history_independent.
+
+(* the names that are sub-fields of ONE format family only (table of the source, Gen/GenDims.v) *)
+Theorem C09_family_names : forall fmt, In fmt known_fmts ->
+  (fmt < 6 -> find_sf fmt "overlap" = None /\ find_sf fmt "scanner_channel" = None)
+  /\ (6 <= fmt -> find_sf fmt "overlap" = Some ("classification_flags"%string, 8)
+                  /\ find_sf fmt "scanner_channel" = Some ("classification_flags"%string, 48)).
+Proof. exact family_split. Qed.
+Print Assumptions C09_family_names.
+
+Theorem C09_attr_across_families : forall w a fa b fb name vs vs',
+  In (obj_fmt w a) known_fmts -> obj_fmt w a < 6 -> name = "overlap"%string \/ name = "scanner_channel"%string ->
+  wattr w a fa name vs = (w, None)
+  /\ wattr (fst (wattr w a fa name vs)) b fb name vs' = wattr w b fb name vs'
+  /\ (In (obj_fmt w b) known_fmts -> 6 <= obj_fmt w b -> wattr w b fb name vs' = wstep w (WAssign b (OSeq name vs'))).
+Proof. exact attr_family_names. Qed.
+Print Assumptions C09_attr_across_families.
+
+(* the run with attribute assignments extends the run of the worlds *)
+Theorem C09_wrun7_extends_wrun : forall ops w, wrun7 w (map WOp ops) = wrun w ops.
+Proof. exact wrun7_ops. Qed.
+Print Assumptions C09_wrun7_extends_wrun.
+
 Example C09_nonvacuous :
   In (6, "scanner_channel"%string, "classification_flags"%string, 48) all_sub_fields
   /\ sf_assign 48 0xCF 2 = Ok 0xEF /\ sf_assign 48 0xCF 4 = Err EOverflow /\ sf_assign 48 0xCF (-1) = Err EOverflow
@@ -400,5 +443,16 @@ Example C09_nonvacuous :
       /\ xassign_sub 1 x "synthetic" [1; 0; 1]
          = Some (Ok ([("bit_fields"%string, [0xFF; 0x00; 0x00]); ("raw_classification"%string, [0x20; 0xDF; 0x20])],
                      [("synthetic"%string, [1000; 1001; 0]); ("return_num"%string, [7; 7; 0]); ("quality"%string, [3; 4; 0])]))
-      /\ xassign_sub 1 x "synthetic" [2; 0] = Some (Err EOverflow) /\ xassign_sub 1 x "quality" [1; 1] = None).
+      /\ xassign_sub 1 x "synthetic" [2; 0] = Some (Err EOverflow) /\ xassign_sub 1 x "quality" [1; 1] = None)
+  (* round 7: an object of format 3 and one of format 6. obj0.overlap = 1 (no dimension of format 3) changes nothing; then
+     obj1.overlap = 1 sets bit 3 of classification_flags 0xC7 -> 0xCF; obj1.scanner_channel = 4 is refused and modifies
+     nothing; = 2 sets bits 4-5 -> 0xEF; obj0.scanner_channel = 9 changes nothing *)
+  /\ (let r := wrun7 ([], [])
+        [WOp (WNew 3 [("bit_fields"%string, [0xFF]); ("raw_classification"%string, [0xFF])]);
+         WOp (WNew 6 [("bit_fields"%string, [0xFF]); ("classification_flags"%string, [0xC7])]);
+         WAttr 0 [] "overlap" [1]; WAttr 1 [] "overlap" [1]; WAttr 1 [] "scanner_channel" [4];
+         WAttr 1 [] "scanner_channel" [2]; WAttr 0 [] "scanner_channel" [9]] in
+      map (fun s => (col_get (obj_read (fst s) 0%nat) "raw_classification", col_get (obj_read (fst s) 1%nat) "classification_flags", snd s))
+          (skipn 2 r)
+      = [([0xFF], [0xC7], None); ([0xFF], [0xCF], None); ([0xFF], [0xCF], Some EOverflow); ([0xFF], [0xEF], None); ([0xFF], [0xEF], None)]).
 Proof. split; [apply entry_mem; vm_compute; reflexivity|]. vm_compute. repeat split; reflexivity. Qed.
